@@ -41,3 +41,11 @@
 ; ghost: lcAt (Array Ref Bool)
 ; ghost: lcPos (Array Ref Str)
 ; ghost: lcRev (Array Ref Bool)
+; Library key-value views (a bbolt Bucket, a badger Txn), keyed by the library object: which keys it holds and
+; their values. bktOf(tx): the root bucket of a bbolt transaction (created by Open; assumed present).
+; ghost: lbHas (Array Ref (Array Str Bool))
+; ghost: lbVal (Array Ref (Array Str Bytes))
+(declare-fun bktOf (Ref) Ref)
+; badger items: the key and value an Item stands for
+; ghost: liKey (Array Ref Str)
+; ghost: liVal (Array Ref Bytes)
